@@ -130,6 +130,13 @@ func lex(src string) ([]tok, error) {
 			for j < len(src) && (unicode.IsLetter(rune(src[j])) || unicode.IsDigit(rune(src[j])) || src[j] == '_') {
 				j++
 			}
+			// decimal floating-point literal: digits '.' digits
+			if j+1 < len(src) && src[j] == '.' && src[j+1] >= '0' && src[j+1] <= '9' {
+				j++
+				for j < len(src) && src[j] >= '0' && src[j] <= '9' {
+					j++
+				}
+			}
 			out = append(out, tok{"num", src[i:j]})
 			i = j
 		case c == '"':
@@ -475,6 +482,12 @@ func (p *parser) primary() Expr {
 	switch t.kind {
 	case "num":
 		s := strings.ReplaceAll(t.text, "_", "")
+		if strings.Contains(s, ".") {
+			if _, err := strconv.ParseFloat(s, 64); err != nil {
+				panic("bad number " + t.text)
+			}
+			return &ELit{s} // floating-point literal (kept textually; typed by its context)
+		}
 		v, err := strconv.ParseUint(s, 0, 64)
 		if err != nil {
 			// maybe big
@@ -567,6 +580,7 @@ type SpecFn struct {
 	Rec     bool
 	Opaque  bool // emitted as an uninterpreted function plus a definitional axiom triggered on its applications (not a macro)
 	Pred    bool // heap-reading predicate: expanded inline at each use
+	BVOnly  bool // "spec bv fn": the body is a bit-level definition used in bv mode; int-mode units see an uninterpreted function
 	File    string
 	Line    int
 }
@@ -583,6 +597,7 @@ type AxiomDecl struct {
 	Pkg    string
 	E      Expr
 	Lemma  bool // lemma: an obligation
+	Scope  string // "" (every unit of the package) | "int" | "bv": only units verified in that mode import the fact | "explicit": only units that name it in a `with` clause
 	Props  []string
 	Mode   Mode
 	File   string
@@ -861,6 +876,14 @@ func (cs *ContractSet) loadFile(path string) error {
 					} else {
 						curA.Mode = ModeInt
 					}
+				case "scope":
+					// `scope int` / `scope bv`: import this axiom/lemma only into units of that mode (e.g. a bit-level
+					// lemma proved in bv that int-mode units use as an abstract fact, without burdening bv units with it);
+					// `scope explicit`: import it only into units whose contract says `with <name> ...`
+					if rest != "int" && rest != "bv" && rest != "explicit" {
+						return fmt.Errorf("%s:%d: scope must be int, bv or explicit", path, l.no)
+					}
+					curA.Scope = rest
 				case "body":
 					e, err := ParseExpr(rest)
 					if err != nil {
@@ -1025,6 +1048,10 @@ func parseSpecFn(rest, pkg string) (*SpecFn, error) {
 	}
 	if w == "opaque" {
 		sf.Opaque = true
+		w, r = splitWord(r)
+	}
+	if w == "bv" {
+		sf.BVOnly = true
 		w, r = splitWord(r)
 	}
 	if w != "fn" {
